@@ -490,6 +490,14 @@ func AnalyzeConfig(p *load.Program, r *Roles, depth int) *UnitResult {
 			col.Check("C19.R3", cname+":application", cs.bad == "", rt.Pos, cs.bad, nil)
 			col.Check("C19.R3", cname+":application", cs.pendingLists == "", rt.Pos, "options collected into "+cs.pendingLists+" are never applied", nil)
 		}
+		// nothing the constructor itself writes into the node's configuration comes after an option
+		// was applied: "the last setting wins" also against the constructor (a clamp or a default
+		// applied afterwards would make the option form differ from the builder form)
+		if site, what := postApplyWrite(p, r, fn); site != nil {
+			col.Check("C19.R3,C19.R1", cname+":post-apply-write", false, p.Position(site.Pos()), "the constructor writes "+what+" after options were applied: what the caller set last is overridden, and the builder form (which sets the field directly) behaves differently", nil)
+		} else {
+			col.Check("C19.R3,C19.R1", cname+":post-apply-write", true, p.Position(fn.Pos()), "", nil)
+		}
 		var list []string
 		for k := range set {
 			list = append(list, k)
@@ -506,6 +514,132 @@ func AnalyzeConfig(p *load.Program, r *Roles, depth int) *UnitResult {
 	// getters
 	checkGetters(p, r, col, res, run)
 	return res
+}
+
+// postApplyWrite looks, in a constructor and the in-package functions it calls, for a store into a
+// field of a BaseNode that can execute after an option has been applied (a call through a value
+// of an option type, or of an option's apply method). Returns the store and a description.
+func postApplyWrite(p *load.Program, r *Roles, ctor *ssa.Function) (ssa.Instruction, string) {
+	if r.BaseNode == nil {
+		return nil, ""
+	}
+	isOptionCall := func(ins ssa.Instruction) bool {
+		ci, ok := ins.(ssa.CallInstruction)
+		if !ok {
+			return false
+		}
+		cc := ci.Common()
+		if cc.IsInvoke() {
+			return cc.Method.Name() == "apply"
+		}
+		if cc.StaticCallee() != nil {
+			return false
+		}
+		if n, ok := cc.Value.Type().(*types.Named); ok && n.Obj().Pkg() == p.Types && strings.HasSuffix(n.Obj().Name(), "Option") {
+			return true
+		}
+		return false
+	}
+	inBaseNode := func(addr ssa.Value) (bool, string) {
+		for {
+			fa, ok := addr.(*ssa.FieldAddr)
+			if !ok {
+				return false, ""
+			}
+			if pt, ok := fa.X.Type().Underlying().(*types.Pointer); ok {
+				if types.Identical(pt.Elem(), r.BaseNode) {
+					if st, ok := r.BaseNode.Underlying().(*types.Struct); ok && fa.Field < st.NumFields() {
+						return true, "BaseNode." + st.Field(fa.Field).Name()
+					}
+					return true, "a field of BaseNode"
+				}
+			}
+			addr = fa.X
+		}
+	}
+	// writes[f]: some store of f (or of what it calls) goes into a BaseNode
+	var writes func(f *ssa.Function, depth int, seen map[*ssa.Function]bool) (ssa.Instruction, string)
+	writes = func(f *ssa.Function, depth int, seen map[*ssa.Function]bool) (ssa.Instruction, string) {
+		if f == nil || seen[f] || depth > 3 || len(f.Blocks) == 0 || f.Pkg != p.SSA {
+			return nil, ""
+		}
+		seen[f] = true
+		for _, b := range f.Blocks {
+			for _, ins := range b.Instrs {
+				if st, ok := ins.(*ssa.Store); ok {
+					if ok, what := inBaseNode(st.Addr); ok {
+						return ins, what
+					}
+				}
+				if ci, ok := ins.(ssa.CallInstruction); ok {
+					if g := ci.Common().StaticCallee(); g != nil && !isSetterLike(g) {
+						if i, w := writes(g, depth+1, seen); i != nil {
+							return i, w
+						}
+					}
+				}
+			}
+		}
+		return nil, ""
+	}
+	// blocks reachable after an option call
+	type pt struct {
+		b *ssa.BasicBlock
+		i int
+	}
+	var starts []pt
+	for _, b := range ctor.Blocks {
+		for i, ins := range b.Instrs {
+			if isOptionCall(ins) {
+				starts = append(starts, pt{b, i})
+			}
+		}
+	}
+	check := func(ins ssa.Instruction) (ssa.Instruction, string) {
+		if st, ok := ins.(*ssa.Store); ok {
+			if ok, what := inBaseNode(st.Addr); ok {
+				return ins, what
+			}
+		}
+		if ci, ok := ins.(ssa.CallInstruction); ok && !isOptionCall(ins) {
+			if g := ci.Common().StaticCallee(); g != nil && !isSetterLike(g) {
+				if i, w := writes(g, 1, map[*ssa.Function]bool{ctor: true}); i != nil {
+					return ins, w + " (in " + g.Name() + ")"
+				}
+			}
+		}
+		return nil, ""
+	}
+	for _, s0 := range starts {
+		for _, ins := range s0.b.Instrs[s0.i+1:] {
+			if i, w := check(ins); i != nil {
+				return i, w
+			}
+		}
+		seen := map[*ssa.BasicBlock]bool{}
+		work := append([]*ssa.BasicBlock(nil), s0.b.Succs...)
+		for len(work) > 0 {
+			b := work[len(work)-1]
+			work = work[:len(work)-1]
+			if seen[b] {
+				continue
+			}
+			seen[b] = true
+			for _, ins := range b.Instrs {
+				if i, w := check(ins); i != nil {
+					return i, w
+				}
+			}
+			work = append(work, b.Succs...)
+		}
+	}
+	return nil, ""
+}
+
+// isSetterLike: an option constructor (WithX) or another constructor: what it writes is an
+// option's business, or concerns another node.
+func isSetterLike(f *ssa.Function) bool {
+	return strings.HasPrefix(f.Name(), "With") || strings.HasPrefix(f.Name(), "New")
 }
 
 // ctorMon follows a constructor: the loop classifying options into lists and the loops applying them.
